@@ -189,6 +189,11 @@ def check_extended(ck, P, rid_cascade, rid_content):
                     ck.violated(rid_cascade, inst, st.where, "last stage %s is not strict" % X.show(rv), cfgname)
                     ok = False
                     continue
+            cex = _refute_final(rv, a, b)
+            if cex:
+                ck.violated(rid_cascade, inst, st.where, "the last stage `%s` makes each of two events come before the other (%s): not a strict order, and the byte comparison runs over a length the shorter payload does not have" % (X.show(rv)[:70], cex), cfgname)
+                ok = False
+                continue
             ck.inconclusive(rid_cascade, inst, st.where, "unrecognised final stage: %s" % X.show(rv), cfgname)
             ok = False
         else:
@@ -304,6 +309,66 @@ def recognise_top(n, P):
             return "tie-break arguments are not the .m of the compared queue elements"
         return {"a": oa, "b": ob, "kind": "q_elem"}
     return "unknown timestamp field %s.%s" % (fa.rec, fa.name)
+
+
+def _refute_final(rv, a, b):
+    """Evaluate an unrecognised last stage (reached with every earlier key equal) on small abstract pairs: payload sizes 0..2 and the sign
+    of the byte comparison per compared length (memcmp(y, x, n) = -memcmp(x, y, n); a longer comparison agrees with a shorter one that
+    already differs).  Returns a description of a pair (x, y) with before(x, y) and before(y, x) both true, or None."""
+    import itertools
+
+    def ev(n, env, swapped):
+        n = X.strip(n)
+        c = X.const_int(n)
+        if c is not None:
+            return c
+        if n.k == "MemberExpr":
+            t = X.show(n)
+            if swapped:
+                t = t.replace(a + "->", "\0").replace(b + "->", a + "->").replace("\0", b + "->")
+            return env.get(t)
+        if n.k == "CallExpr" and n.callee in ("memcmp", "__builtin_memcmp"):
+            ar = X.callee_args(n)
+            ln = ev(ar[2], env, swapped)
+            if ln is None:
+                return None
+            first_is_a = X.show(X.strip(ar[0])).startswith(a + "->")
+            sign = env["sign"].get(ln, 0)
+            # sign is that of cmp(A-payload, B-payload); which payload is first depends on the roles
+            return sign if (first_is_a != swapped) else -sign
+        if n.k == "UnaryOperator" and n.op == "!":
+            v = ev(n.children[0], env, swapped)
+            return None if v is None else (0 if v else 1)
+        if n.k == "BinaryOperator":
+            if n.op in ("&&", "||"):
+                l = ev(n.children[0], env, swapped)
+                if l is None:
+                    return None
+                if n.op == "&&" and not l:
+                    return 0
+                if n.op == "||" and l:
+                    return 1
+                r = ev(n.children[1], env, swapped)
+                return None if r is None else (1 if r else 0)
+            l, r = ev(n.children[0], env, swapped), ev(n.children[1], env, swapped)
+            if l is None or r is None:
+                return None
+            return {"<": l < r, ">": l > r, "<=": l <= r, ">=": l >= r, "==": l == r, "!=": l != r, "+": l + r, "-": l - r}.get(n.op)
+        if n.k == "ConditionalOperator":
+            c = ev(n.children[0], env, swapped)
+            return None if c is None else ev(n.children[1] if c else n.children[2], env, swapped)
+        return None
+    for sa, sb in itertools.product((0, 1, 2), repeat=2):
+        for s1, s2 in itertools.product((-1, 0, 1), repeat=2):
+            if s1 != 0 and s2 != s1:
+                continue
+            env = {a + "->pl_size": sa, b + "->pl_size": sb, "sign": {0: 0, 1: s1, 2: s2}}
+            xy, yx = ev(rv, env, False), ev(rv, env, True)
+            if xy is None or yx is None:
+                return None
+            if xy and yx:
+                return "payload sizes %d and %d, bytes comparing %s over 1 byte / %s over 2" % (sa, sb, {-1: "below", 0: "equal", 1: "above"}[s1], {-1: "below", 0: "equal", 1: "above"}[s2])
+    return None
 
 
 def comparator_sites(P):
